@@ -13,6 +13,8 @@ pub enum Host {
     Toml,
     /// shell file with CRLF line terminators
     ShCrlf,
+    /// shell file in which the end-tag comment trails the block's last content line (`last line # </block>`)
+    ShTrail,
 }
 
 impl Host {
@@ -24,6 +26,7 @@ impl Host {
             Host::Js => "batch.js",
             Host::Toml => "batch.toml",
             Host::ShCrlf => "batch_crlf.sh",
+            Host::ShTrail => "batch_trail.sh",
         }
     }
     pub fn open(self) -> &'static str {
@@ -88,7 +91,7 @@ pub fn render_batch(host: Host, blocks: &[RuleBlock]) -> Rendered {
     let mut text = String::new();
     let mut line = 1usize;
     let mut pos = Vec::with_capacity(blocks.len());
-    if host == Host::Sh || host == Host::ShCrlf {
+    if host == Host::Sh || host == Host::ShCrlf || host == Host::ShTrail {
         text.push_str("#!/bin/sh\n");
         line += 1;
     }
@@ -101,14 +104,23 @@ pub fn render_batch(host: Host, blocks: &[RuleBlock]) -> Rendered {
         let tag_line = line;
         line += 1;
         let first_line = line;
-        for l in &b.lines {
+        let trailing_end = host == Host::ShTrail && !b.lines.is_empty();
+        for (k, l) in b.lines.iter().enumerate() {
             debug_assert!(!l.contains('\n'));
             text.push_str(l);
+            if trailing_end && k + 1 == b.lines.len() {
+                break;
+            }
             text.push('\n');
             line += 1;
         }
-        text.push_str(&format!("{ind}{}</block>\n\n", host.open()));
         let end_line = line;
+        if trailing_end {
+            // the last content line and the end tag share a source line (the blank in front of `#` is content)
+            text.push_str(&format!(" {}</block>\n\n", host.open()));
+        } else {
+            text.push_str(&format!("{ind}{}</block>\n\n", host.open()));
+        }
         line += 2;
         pos.push(BlockPos { tag_line, tag_sc, tag_ec, first_line, end_line });
         // every fourth block is followed by a block WITHOUT any rule whose lines would violate all of them:
